@@ -12,6 +12,9 @@ CLAIMED = {
  "C30": ("§2 C30", "field-write classification of interp.Runner over the type-checked AST (configuration / first-reset block / Reset / runtime), key-by-key analysis of Reset's Runner literal against that classification, must-pass-through for the emptied-after idiom and for didReset, dominance of the !didReset guard and of fillExpandConfig in Run, must-pass-through of updateExpandOpts after every runtime option-table write",
   "Decides the Reset half structurally and one clause of the incremental half. Reset: every field stored by an option closure or by New is carried over by Reset's literal — from itself when only configuration code writes it, from its first-reset snapshot when builtins can overwrite it — or is consumed in the first-reset block; no literal key carries a field the running program can write unless it is emptied on every path afterwards; snapshots are taken only in the first-reset block and carried unchanged; didReset is set on every path. Incremental: Run resets only a never-reset Runner and refreshes the expansion options first, and every runtime write to the option table reaches updateExpandOpts on every path to the function exit (this rule found `shopt -s nullglob bogus` / `set -f -Z` leaving the rest of the Run on stale options: repaired by a fix: commit). A dropped handler, a leaked Funcs/alias/trap field or a missed refresh is one failing obligation whatever the history.",
   "Does not decide value-level equality of a reset Runner with a new one, nor the incremental clause beyond option refresh (EXIT trap, exit inside functions). Two reasoned exceptions (sourceSetParams, dirStack), one line each."),
+ "C31": ("§2 C31", "natural-loop extraction on the decomposed-condition CFG with cycle search avoiding effective context checks; syntactic enumeration of every receive, select and WaitGroup.Wait with idiom matching (ctx.Done arm, AfterFunc completion handshake, goroutines bound to the same context); who-may-call / argument-provenance for os/exec; dominance of the read-deadline registration over every read of Runner.stdin; dominance of ctx.Err() over `return false` in Runner.stop; must-precede of context-capturing callback construction in Run",
+  "Decides that every place where the interpreter can wait is cancellable by construction: each loop of package interp that can run user code or block has, on every cycle, a context check whose outcome leaves the loop; each channel receive/select/WaitGroup.Wait has a ctx.Done() arm or is structurally bounded; external commands are created with exec.CommandContext on the caller's context and a Cancel override always comes with WaitDelay before Start; every read of the Runner's standard input happens after its read deadline was tied to the context; Runner.stop cannot answer false without consulting ctx.Err() and stmt/call ask it first; callbacks capturing a context that live in Runner state are rebuilt by every Run. The rules found three hangs on the pinned tree (wait on a never-finishing job, empty-bodied C-style loop, mapfile on a blocked stdin), each repaired by a fix: commit. Runs on six build configurations in the thorough tier.",
+  "Does not decide the numeric bound, the FIFO open inside the process-substitution goroutine (it may outlive Run), user-supplied handlers, or writes blocking on a full pipe. Assumes SetReadDeadline unblocks a pending read."),
  "C32": ("§2 C32", "SSA receiver-provenance of every Runner used inside a spawned function (go statements and WaitGroup.Go, enumerated) back to subshell(true) in the spawning function; fixpoint summary of the Runner fields each method may store; CFG ordering of exit-status store, close(done) and receive; the C27 storage-ownership rules reused",
   "Decides that everything the interpreter runs on another goroutine runs on a deep copy: inside each spawned function every Runner that is stored to (directly or through a method whose summary stores Runner fields) comes from subshell(true) of the spawning function and the parent Runner is only read; that a background job's exit status is stored before its done channel is closed and read only after receiving from it; and (shared with C27) that no copy writes through list/map storage it shares with the parent. A goroutine started on the parent or on subshell(false), or a status read without the receive, is one failing obligation regardless of schedule. Runs on six build configurations in the thorough tier.",
   "Explores no interleavings. Loads of parent fields from spawned functions (error reporting via the parent's stderr on FIFO failures) are listed in the evidence as observed, not decided. User-supplied handlers and writers are outside the analysis. Assumes go statements and WaitGroup.Go are the only goroutine starts in package interp (enumerated, with a floor)."),
